@@ -264,8 +264,10 @@ def real_cycles(res, n):
         shutil.rmtree(base, ignore_errors=True)
 
 
-def make_emitter_run(root):
-    """start() of an InotifyEmitter racing its stop() (BaseObserver.start() runs outside the observer's lock: stop(),
+def make_emitter_run(root, starts=1, sequential=False):
+    """start() of an InotifyEmitter racing its stop() (`starts` > 1: start() is called again on the started
+    emitter, which must raise RuntimeError and leave the running emitter as it is; `sequential`: one thread
+    does start()..., stop(), join()) (BaseObserver.start() runs outside the observer's lock: stop(),
     unschedule() or unschedule_all() can overtake an emitter that is still inside on_thread_start) - real
     InotifyEmitter / InotifyBuffer / Inotify over the fake kernel under the deterministic scheduler"""
     import queue
@@ -285,6 +287,13 @@ def make_emitter_run(root):
 
             def starter():
                 em.start()
+                for _ in range(starts - 1):
+                    try:
+                        em.start()
+                    except RuntimeError:
+                        pass      # "threads can only be started once"
+                if sequential:
+                    stopper()
 
             def stopper():
                 em.stop()
@@ -294,7 +303,10 @@ def make_emitter_run(root):
                     pass          # join() of a thread that was not started yet: what `_clear_emitters` tolerates
 
             try:
-                sched.run_threads([starter, stopper], ["1", "2"])
+                if sequential:
+                    sched.run_threads([starter], ["1"])
+                else:
+                    sched.run_threads([starter, stopper], ["1", "2"])
             except (detsched.Deadlock, detsched.StepLimit) as e:
                 failure = e
         finally:
@@ -399,6 +411,18 @@ def run(res, tier, lean, proof_breaks=(), build_log=""):
             v = judge_emitter(result)
             if v:
                 ebad.append((v, result))
+        # a second start() of the started emitter: RuntimeError, and stop() + join() still end and release everything
+        dbad = []
+        for seq in (True, False):
+            run_d = make_emitter_run(root3, starts=2, sequential=seq)
+            druns = list(explore.dfs(run_d, 2, 120 if thorough else 40, {})) + \
+                list(explore.random_runs(run_d, r, 40 if thorough else 12))
+            for _sched, result in druns:
+                res.count()
+                res.bump("emitter_double_start_runs")
+                v = judge_emitter(result)
+                if v:
+                    dbad.append((v, result, seq))
     finally:
         shutil.rmtree(root3, ignore_errors=True)
     if ebad:
@@ -406,6 +430,11 @@ def run(res, tier, lean, proof_breaks=(), build_log=""):
         v, result = ebad[0]
         res.violation(f"InotifyEmitter start() racing stop(): {v}",
                       {"schedule": result["line"], "failing_runs": len(ebad)}, signature="c12-emitter-start-stop")
+    if dbad:
+        dbad.sort(key=lambda b: len(b[1]["schedule"]))
+        v, result, seq = dbad[0]
+        res.violation(f"InotifyEmitter start() called twice, then stop() + join(){' from another thread' if not seq else ''}: {v}",
+                      {"schedule": result["line"], "failing_runs": len(dbad), "sequential": seq}, signature="c12-emitter-double-start")
     cbad, cmism = ctor_faults(res, lean)
     rbad = real_cycles(res, 60 if thorough else 15)
     if judged:
